@@ -53,6 +53,35 @@ PROPS = {
     "C10": dict(quick=5000, thorough=3600000, events=None, runs_thorough=112),
 }
 
+# Surface obligations (Axelar/Proofs/Surface<Contract>.lean): the regenerated table of entry points,
+# annotations, arities and storage keys of the contract(s) a property is anchored in must be the surface the
+# model implements.  One Lean module per contract, so that a change to one contract breaks only its own
+# properties' obligations.
+_GW, _GS, _GOV, _TM, _ITS = "Gateway", "GasService", "Governance", "TokenManager", "Its"
+SURFACE = {
+    "C01": [_GW], "C02": [_GW], "C03": [_GW], "C15": [_GS],
+    "C11": [_GOV], "C12": [_GOV], "C16": [_GOV], "C09": [_TM], "C10": [_TM],
+    "C04": [_ITS, _TM], "C05": [_ITS, _TM], "C08": [_ITS, _TM], "C13": [_ITS], "C14": [_ITS],
+    "C17": [_ITS], "C18": [_ITS, _TM], "C19": [_ITS], "C20": [_ITS],
+    "C06": [], "C07": [],
+}
+SURFACE_THEOREMS = {
+    _GW: ["gateway_surface", "gateway_storage_no_alias", "gateway_state_changes_only_through_surface"],
+    _GS: ["gasService_surface", "gasService_storage_no_alias"],
+    _GOV: ["governance_surface", "governance_storage_no_alias"],
+    _TM: ["tokenManager_surface", "tokenManager_storage_no_alias"],
+    _ITS: ["its_surface", "its_storage_no_alias"],
+}
+
+
+def surface_modules(prop):
+    return [f"Axelar.Proofs.Surface{c}" for c in SURFACE.get(prop, [])]
+
+
+def surface_theorems(prop):
+    return [f"Axelar.Surface.{t}" for c in SURFACE.get(prop, []) for t in SURFACE_THEOREMS[c]]
+
+
 TRUSTED_BASE = [
     "Lean 4.33.0 kernel (theorems re-checked by `lake build`; thorough tier also leanchecker)",
     "axioms: propext, Classical.choice, Quot.sound only (audited per theorem by #print axioms)",
@@ -141,10 +170,15 @@ def audit(prop):
     names, bad = prop_theorems(prop)
     os.makedirs(WORK, exist_ok=True)
     path = os.path.join(WORK, f"Audit_{prop}.lean")
+    extra = surface_theorems(prop)
     with open(path, "w") as f:
         f.write(f"import Axelar.Props.{prop}\n")
+        for m in surface_modules(prop):
+            f.write(f"import {m}\n")
         for n in names:
             f.write(f"#print axioms Axelar.Props.{prop}.{n}\n")
+        for n in extra:
+            f.write(f"#print axioms {n}\n")
     rc, out = sh(["lake", "env", "lean", path], cwd=LEAN, timeout=1200)
     results = {}
     # "'X' depends on axioms: [a, b]"  /  "'X' does not depend on any axioms"
@@ -154,8 +188,7 @@ def audit(prop):
         results[m.group(1)] = []
     failures = list(bad)
     discharged = 0
-    for n in names:
-        full = f"Axelar.Props.{prop}.{n}"
+    for full in [f"Axelar.Props.{prop}.{n}" for n in names] + extra:
         if full not in results:
             failures.append(f"theorem {full}: no axiom report (does it still build?)")
             continue
@@ -166,6 +199,7 @@ def audit(prop):
             discharged += 1
     if rc != 0:
         failures.append("axiom audit file did not elaborate: " + out[-500:])
+    names = names + ["(surface) " + n for n in extra]
     return names, discharged, failures, results
 
 
@@ -370,7 +404,7 @@ def main(argv):
     ok, out = run_extract()
     if not ok:
         broken.append("translator tools/extract.py cannot follow the source: " + out)
-    ok_build, out = lake_build([f"Axelar.Props.{prop}", "driver"])
+    ok_build, out = lake_build([f"Axelar.Props.{prop}"] + surface_modules(prop) + ["driver"])
     if not ok_build:
         errs = [l for l in out.split("\n") if l.startswith("error")]
         broken.append("lake build Axelar.Props.%s failed: %s" % (prop, " | ".join(errs[:6])))
@@ -538,7 +572,7 @@ def main(argv):
             "checker_cmd": f"cd {LEAN} && lake build Axelar.Props.{prop} && lake env lean .work/Audit_{prop}.lean (#print axioms)"
                            + (" && lake env leanchecker Axelar.Props." + prop if tier == "thorough" else ""),
             "trusted_base": TRUSTED_BASE,
-            "theorems": [f"Axelar.Props.{prop}.{n}" for n in names],
+            "theorems": [n[10:] if n.startswith("(surface) ") else f"Axelar.Props.{prop}.{n}" for n in names],
             "evaluations": stats["n"],
             "distinct_nontrivial": len(nontrivial),
             "rule": "operations generated from one seeded PRNG by harness/src/gen (mostly-valid + malformed streams), executed on "
